@@ -42,7 +42,7 @@ METH_O_PATHS = ["func", "tpcall", "partial", "literal", "cpdef", "cmeth", "cunbo
 # exhaustive families (cfg files; `bounds` = MaxPO, MaxPK, MaxKO of the union of the signature sets) and the
 # budget for the sampled 6/6/6 family (spec SimSpec, TLC -simulate)
 QUICK = {"cfg": ["ArgBind_quick"], "bounds": (1, 1, 2), "sim_s": 0, "sim_sigs": 0}
-THOROUGH = {"cfg": ["ArgBind_quick", "ArgBind_t1", "ArgBind_t2", "ArgBind_k3"], "bounds": (2, 2, 2), "sim_s": 120, "sim_sigs": 80}
+THOROUGH = {"cfg": ["ArgBind_quick", "ArgBind_t1", "ArgBind_t2", "ArgBind_k3"], "bounds": (2, 2, 2), "sim_s": 90, "sim_sigs": 60}
 
 
 def chunks(seq, n):
@@ -284,7 +284,7 @@ def run(tier, seed):
     bld = Builder(wd, jobs)
     bld.add_sigs("b", sigs, call_sigs)
     if sim_sigs:
-        bld.add_sigs("s", sim_sigs, sim_sigs[:40], per_mod=80, per_call_mod=40)
+        bld.add_sigs("s", sim_sigs, sim_sigs[:30], per_mod=60, per_call_mod=30)
     built = {}
 
     def do_build():
